@@ -1552,7 +1552,21 @@ pub fn generate(prop: &str, rng: &mut Rng, plan: &mut Plan, index: u64) {
                 plan.parent.env[0].1 = entries.join(":");
                 spec.argv[0] = cmd.into_bytes();
             } else if !succeed {
-                spec.argv[0] = b"/bin/missing".to_vec();
+                // every way an exec can fail: nothing there, not executable, a directory, not a binary
+                match rng.below(4) {
+                    0 => spec.argv[0] = b"/bin/missing".to_vec(),
+                    1 => spec.argv[0] = b"/work/file".to_vec(),
+                    2 => spec.argv[0] = b"/work/sub".to_vec(),
+                    _ => {
+                        plan.fs.push(FsEntry { path: "/work/script".into(), node: Node::NotBinary, raw: None });
+                        spec.argv[0] = b"/work/script".to_vec();
+                    }
+                }
+            }
+            // ... and whatever error the kernel may give for a candidate (ENOEXEC, ETXTBSY, E2BIG, ...)
+            if rng.chance(1, 8) {
+                plan.knobs.faults.exec_errno = vec![(0, rng.below(3) as u32, *rng.pick(&[libc::ENOEXEC, libc::ETXTBSY, libc::E2BIG, libc::ENOMEM, libc::EACCES, libc::EIO]))];
+                plan.knobs.batch = "faulty".into();
             }
             for _ in 0..rng.below(40) {
                 spec.argv.push(gen_bytes(rng, 300, false));
